@@ -294,6 +294,18 @@ def run_batch(c):
         problems.append(("batch-B-mu0H-J", f"source {l} observer {k}: |B-mu0H-J|={res[l, k]:.3g}", None))
     if np.max(np.abs(J - mu0 * M)) > 1e-15 * np.max(np.abs(J) + 1e-300):
         problems.append(("batch-J-mu0M", "J != mu_0*M", None))
+    # the same relations in the dataframe output
+    try:
+        df = {f: getattr(magpy, "get" + f)(srcs_arg, obs, output="dataframe")[[f + "x", f + "y", f + "z"]].to_numpy() for f in "BHJM"}
+        if df["J"].shape != df["M"].shape or np.max(np.abs(df["J"] - mu0 * df["M"])) > 1e-15 * np.max(np.abs(df["J"]) + 1e-300):
+            problems.append(("batch-J-mu0M-dataframe", "J != mu_0*M in output='dataframe'", None))
+        r_ = np.linalg.norm(df["B"] - mu0 * df["H"] - df["J"], axis=1)
+        if np.max(r_) > REL * max(np.max(np.linalg.norm(df["B"], axis=1)), 1e-300):
+            problems.append(("batch-B-mu0H-J-dataframe", f"|B-mu0H-J| = {np.max(r_):.3g} in output='dataframe'", None))
+        if not np.array_equal(df["J"].reshape(J.shape), J):
+            problems.append(("batch-dataframe-differs-from-array", "J of the dataframe differs from the ndarray output", None))
+    except Exception as e:
+        problems.append(("raised", f"dataframe output raised {type(e).__name__}: {e}"[:160], None))
     if not c.get("collection"):
         for l, (o, _, pol) in enumerate(bodies):
             for k in range(len(obs)):
